@@ -59,6 +59,7 @@ theorem dcWrapper_frame {rec : Heap → Item → R Item} (hr : FrameSpec rec) (s
             · rename_i h2' io heq
               exact (f1.trans (hr _ _ _ _ heq)).trans (allocLike_frame _ _ _ _ _ e)
       · exact f1.trans (allocLike_frame _ _ _ _ _ e)
+      · exact f1.trans (allocLike_frame _ _ _ _ _ e)
 
 theorem dcAttr_frame {rec : Heap → Item → R Item} (hr : FrameSpec rec) (strict : Bool) (T : CKind → KindRow)
     (self new : Nat) : FrameSpec (dcAttr rec strict T self new) := by
@@ -247,6 +248,7 @@ theorem dcWrapper_fresh {n0 : Nat} {rec : Heap → Item → R Item} (hr : FrameS
               have s2 := hs _ _ _ _ le1 s1.1 heq
               exact allocLike_fresh (Nat.le_trans le1 f2.1) s2.1 _
                 (itemsIn_append (itemsIn_mono s1.2 f2.1) (itemsIn_single s2.2)) e
+      · exact allocLike_fresh le1 s1.1 _ (itemsIn_append s1.2 (itemsIn_single (itemIn_atom _ _ _))) e
       · exact allocLike_fresh le1 s1.1 _ s1.2 e
 
 theorem dcAttr_fresh {n0 : Nat} {rec : Heap → Item → R Item} (hr : FrameSpec rec) (hs : FreshSpec n0 rec)
